@@ -125,6 +125,14 @@ func isInt(t types.Type) bool {
 	b, ok := t.Underlying().(*types.Basic)
 	return ok && (b.Kind() == types.Int || b.Kind() == types.UntypedInt)
 }
+// isIntLike: int, and in the cwt validator slices uint64 (NumericDate values: only compared, never subtracted)
+func (f *ftr) isIntLike(t types.Type) bool {
+	if isInt(t) {
+		return true
+	}
+	b, ok := t.Underlying().(*types.Basic)
+	return ok && f.hdr != nil && f.hdr.cwt && b.Kind() == types.Uint64
+}
 func isByte(t types.Type) bool {
 	b, ok := t.Underlying().(*types.Basic)
 	return ok && b.Kind() == types.Uint8
@@ -204,7 +212,7 @@ func (f *ftr) expr(e ast.Expr) term {
 		pr, vr := f.bind(r)
 		var s string
 		switch {
-		case isInt(lt):
+		case f.isIntLike(lt):
 			switch x.Op {
 			case token.ADD:
 				s = "(" + vl + " + " + vr + ")"
@@ -459,7 +467,7 @@ func (f *ftr) nameOf(id *ast.Ident) string {
 			return n
 		}
 	}
-	return f.nameOf(id)
+	return coqName(id.Name)
 }
 
 func rootIdent(e ast.Expr) *ast.Ident {
